@@ -56,6 +56,10 @@ def configs(tier, seed):
         for ngauss in (1, 2):
             out.append({"name": f"oscillation-irf-full-{'neg' if neg else 'pos'}rate-{ngauss}gauss", "kind": "osc_irf_full", "neg": neg,
                         "ngauss": ngauss, "shifted": ngauss == 1})
+    # two oscillations with rates of different sign, in both declaration orders (columns stay with their labels)
+    for signs in (["neg", "pos"], ["pos", "neg"]):
+        out.append({"name": f"oscillation-irf-full-mixed-{'-'.join(signs)}", "kind": "osc_irf_full", "signs": signs, "ngauss": 1,
+                    "shifted": False, "nt": 1})
     for order in (1, 2, 3):
         for own in (False, True):
             out.append({"name": f"artifact-order{order}-{'own' if own else 'irf'}width", "kind": "artifact", "order": order,
@@ -298,7 +302,11 @@ def build_osc_irf_full(cfg, val):
                            width=[_param(f"sig{g}", val(f"sig{g}")) for g in range(ng)],
                            scale=[_param(f"sc{g}", val(f"sc{g}")) for g in range(ng)] if ng > 1 else None,
                            shift=[_param("sh0", val("sh0")), _param("sh1", val("sh1"))] if cfg["shifted"] else None)
-    return build_osc(1, val), types.SimpleNamespace(label="d1", irf=irf)
+    return build_osc(len(_signs(cfg)), val), types.SimpleNamespace(label="d1", irf=irf)
+
+
+def _signs(cfg):
+    return cfg.get("signs") or (["neg"] if cfg["neg"] else ["pos"])
 
 
 def _run_osc_irf_full(cfg, rec):
@@ -307,6 +315,8 @@ def _run_osc_irf_full(cfg, rec):
     k = gamma + i omega, tau_g = t - (mu_g - shift_i), each Gaussian contributing only inside its 5 sigma window (causal for
     gamma >= 0, anti-causal with the sign of the erf argument flipped for gamma < 0), 0 outside."""
     ng = cfg["ngauss"]
+    signs = _signs(cfg)
+    nosc, nt = len(signs), cfg.get("nt", 2)
     W = zreal(0.03) * 2 * zreal(float(np.pi))
     S2 = zreal(float(np.sqrt(2)))
 
@@ -324,21 +334,22 @@ def _run_osc_irf_full(cfg, rec):
 
             ctx.lazy_axioms = True  # every fork of this code is a linear comparison of inputs
             mc, dm = build_osc_irf_full(cfg, val)
-            t = _axis(ctx, "t", 2)
+            t = _axis(ctx, "t", max(nt, 2))
             for g in range(ng):
                 ctx.assume(vals[f"sig{g}"].e > 0)
                 if ng > 1:
                     ctx.assume(vals[f"sc{g}"].e > 0)
-            ctx.assume((vals["g0"].e < 0) if cfg["neg"] else (vals["g0"].e >= 0))
-            ctx.assume(vals["f0"].e >= 0)
-            ctx.assume(vals["f0"].e * W * 2 * zreal(0.03) * (t[1].e - t[0].e) < 1)  # below the folding frequency of the axis
+            for o_, sg_ in enumerate(signs):
+                ctx.assume((vals[f"g{o_}"].e < 0) if sg_ == "neg" else (vals[f"g{o_}"].e >= 0))
+                ctx.assume(vals[f"f{o_}"].e >= 0)
+                ctx.assume(vals[f"f{o_}"].e * W * 2 * zreal(0.03) * (t[1].e - t[0].e) < 1)  # below the folding frequency of the axis
             gaxis = np.array([1.0, 2.0]) if cfg["shifted"] else np.array([1.0])
             # the window edges themselves (tau = +-5 sigma exactly) are outside the claim (measure zero; '<' vs '<=' there)
             for gi_ in range(len(gaxis)):
-                for a_ in range(2):
+                for a_ in range(len(t)):
                     for g_ in range(cfg["ngauss"]):
                         tau_ = t[a_].e - (vals[f"mu{g_}"].e - (vals[f"sh{gi_}"].e if cfg["shifted"] else 0))
-                        ctx.assume(tau_ != (5 if cfg["neg"] else -5) * vals[f"sig{g_}"].e)
+                        ctx.assume(z3.And(tau_ != 5 * vals[f"sig{g_}"].e, tau_ != -5 * vals[f"sig{g_}"].e))
             labels, matrix = mc.calculate_matrix(dm, gaxis, t)
         return labels, matrix, vals, t
 
@@ -353,43 +364,45 @@ def _run_osc_irf_full(cfg, rec):
             continue
         labels, matrix, vals, t = out
         matrix = np.asarray(matrix, dtype=object)
-        gam, om = vals["g0"].e, vals["f0"].e * W
-        k = (gam, om)
         fr = z3.Function("cerf_re", z3.RealSort(), z3.RealSort(), z3.RealSort())
         fi = z3.Function("cerf_im", z3.RealSort(), z3.RealSort(), z3.RealSort())
-        items = [("labels: one cosine and one sine column", z3.BoolVal(list(labels) == ["o0_cos", "o0_sin"]), "basis:osc-irf-full:labels")]
+        want_labels = [f"o{o}_cos" for o in range(nosc)] + [f"o{o}_sin" for o in range(nosc)]
+        items = [("labels: all cosine columns, then all sine columns, in declaration order", z3.BoolVal(list(labels) == want_labels),
+                  "basis:osc-irf-full:labels")]
         nidx = 2 if cfg["shifted"] else 1
-        for gi in range(nidx):
-            for a in range(2):
-                tot = (z3.RealVal(0), z3.RealVal(0))
-                for g in range(ng):
-                    sig = vals[f"sig{g}"].e
-                    tau = t[a].e - (vals[f"mu{g}"].e - (vals[f"sh{gi}"].e if cfg["shifted"] else 0))
-                    inside_w = ctx.implied((tau < 5 * sig) if cfg["neg"] else (tau > -5 * sig))
-                    if inside_w is None:
-                        inside_w = "undecided"
-                    if inside_w is False:
-                        continue
-                    dk = (k[0] * sig * sig, k[1] * sig * sig)
-                    e_arg = cmul((-tau + dk[0] / 2, dk[1] / 2), k)
-                    mag = ctx.uf("exp", e_arg[0])
-                    aa = (mag * ctx.uf("cos", e_arg[1]), mag * ctx.uf("sin", e_arg[1]))
-                    den = (-S2 * sig) if cfg["neg"] else (S2 * sig)
-                    zr, zi = z3.simplify((tau - dk[0]) / den), z3.simplify((-dk[1]) / den)
-                    bb = (1 + fr(zr, zi), fi(zr, zi))
-                    term = cmul(aa, bb)
-                    sc = vals[f"sc{g}"].e if ng > 1 else z3.RealVal(1)
-                    if inside_w == "undecided":
-                        cond = (tau < 5 * sig) if cfg["neg"] else (tau > -5 * sig)
-                        term = (z3.If(cond, term[0], 0), z3.If(cond, term[1], 0))
-                    tot = (tot[0] + sc * term[0], tot[1] + sc * term[1])
-                norm = z3.Sum([vals[f"sc{g}"].e for g in range(ng)]) if ng > 1 else z3.RealVal(1)
-                got_c = matrix[gi, a, 0] if matrix.ndim == 3 else matrix[a, 0]
-                got_s = matrix[gi, a, 1] if matrix.ndim == 3 else matrix[a, 1]
-                items.append(("cosine column = Re of the IRF-convolved oscillation closed form (0 outside the 5 sigma window), at centre - shift_i",
-                              core.cross_eq(zreal(got_c), tot[0] / norm), "basis:osc-irf-full:cos"))
-                items.append(("sine column = Im of the IRF-convolved oscillation closed form",
-                              core.cross_eq(zreal(got_s), tot[1] / norm), "basis:osc-irf-full:sin"))
+        for o, sg in enumerate(signs if list(labels) == want_labels else []):
+            neg = sg == "neg"
+            k = (vals[f"g{o}"].e, vals[f"f{o}"].e * W)
+            for gi in range(nidx):
+                for a in range(len(t)):
+                    tot = (z3.RealVal(0), z3.RealVal(0))
+                    for g in range(ng):
+                        sig = vals[f"sig{g}"].e
+                        tau = t[a].e - (vals[f"mu{g}"].e - (vals[f"sh{gi}"].e if cfg["shifted"] else 0))
+                        cond = (tau < 5 * sig) if neg else (tau > -5 * sig)
+                        inside_w = ctx.implied(cond)
+                        if inside_w is False:
+                            continue
+                        dk = (k[0] * sig * sig, k[1] * sig * sig)
+                        e_arg = cmul((-tau + dk[0] / 2, dk[1] / 2), k)
+                        mag = ctx.uf("exp", e_arg[0])
+                        aa = (mag * ctx.uf("cos", e_arg[1]), mag * ctx.uf("sin", e_arg[1]))
+                        den = (-S2 * sig) if neg else (S2 * sig)
+                        zr, zi = z3.simplify((tau - dk[0]) / den), z3.simplify((-dk[1]) / den)
+                        bb = (1 + fr(zr, zi), fi(zr, zi))
+                        term = cmul(aa, bb)
+                        sc = vals[f"sc{g}"].e if ng > 1 else z3.RealVal(1)
+                        if inside_w is None:
+                            term = (z3.If(cond, term[0], 0), z3.If(cond, term[1], 0))
+                        tot = (tot[0] + sc * term[0], tot[1] + sc * term[1])
+                    norm = z3.Sum([vals[f"sc{g}"].e for g in range(ng)]) if ng > 1 else z3.RealVal(1)
+                    ci, si = labels.index(f"o{o}_cos"), labels.index(f"o{o}_sin")
+                    got_c = matrix[gi, a, ci] if matrix.ndim == 3 else matrix[a, ci]
+                    got_s = matrix[gi, a, si] if matrix.ndim == 3 else matrix[a, si]
+                    items.append(("cosine column of an oscillation = Re of its IRF-convolved closed form (0 outside the 5 sigma window), at "
+                                  "centre - shift_i", core.cross_eq(zreal(got_c), tot[0] / norm), "basis:osc-irf-full:cos"))
+                    items.append(("sine column of an oscillation = Im of its IRF-convolved closed form",
+                                  core.cross_eq(zreal(got_s), tot[1] / norm), "basis:osc-irf-full:sin"))
         rec.check_all(ctx, items, wit)
         rec.want_sample() and rec.sample({"pc": [str(c)[:80] for c in ctx.pc][:4], "cos0": str(zreal(matrix.flat[0]))[:160]})
     rec.validate("osc_irf_full", {}, {"ok": True})
@@ -571,8 +584,14 @@ def _run_axis(cfg, rec):
             mc = SpectralMegacomplex(label="sp", shape={"s1": shape})
             dm = types.SimpleNamespace(label="d1", spectral_axis_inverted=cfg["axis"] == "inverted",
                                        spectral_axis_scale=sc if cfg["axis"] != "plain" else 1)
+            x_before = [zreal(v_) for v_ in x]
             labels, matrix = mc.calculate_matrix(dm, np.array([0.0]), x)
-        return labels, matrix, x, sc, vals
+            # the caller's axis array is evaluated again (as every objective evaluation does): same array, same matrix
+            labels2, matrix2 = mc.calculate_matrix(dm, np.array([0.0]), x)
+            same_axis = all(zreal(a_).eq(b_) or core.poly_zero(zreal(a_), b_) for a_, b_ in zip(x, x_before))
+            same_matrix = all(core.poly_zero(zreal(a_), zreal(b_)) for a_, b_ in zip(np.asarray(matrix, dtype=object).flat,
+                                                                                       np.asarray(matrix2, dtype=object).flat))
+        return labels, matrix, x, sc, vals, same_axis, same_matrix
 
     for ctx, (kind, out) in core.explore(fn, rec.stats, max_paths=50):
         rec.witness_path(ctx)
@@ -580,8 +599,9 @@ def _run_axis(cfg, rec):
         if kind == "exc":
             rec.unexpected(ctx, f"{type(out).__name__}: {out}", "basis:axis:exception", wit)
             continue
-        labels, matrix, x, sc, vals = out
-        items = []
+        labels, matrix, x, sc, vals, same_axis, same_matrix = out
+        items = [("evaluating the shapes leaves the caller's axis array as it was and a second evaluation gives the same matrix",
+                  z3.BoolVal(bool(same_axis and same_matrix)), "basis:axis:caller-axis-modified")]
         for a in range(2):
             xe = sc.e / x[a].e if cfg["axis"] == "inverted" else sc.e * x[a].e if cfg["axis"] == "scaled" else x[a].e
             u = 2 * (xe - vals["x0"].e) / vals["D"].e
@@ -644,29 +664,35 @@ def replay(data):
                 from scipy.special import erf as cerf
 
                 ng_ = cfg["ngauss"]
-                v = {"f0": float(rng.uniform(1, 20)), "g0": float(rng.uniform(0.1, 3)) * (-1 if cfg["neg"] else 1), "sh0": float(rng.uniform(-0.3, 0.3)),
-                     "sh1": float(rng.uniform(-0.3, 0.3))}
+                sg_ = _signs(cfg)
+                v = {"sh0": float(rng.uniform(-0.3, 0.3)), "sh1": float(rng.uniform(-0.3, 0.3))}
+                for o_, s_ in enumerate(sg_):
+                    v[f"f{o_}"] = float(rng.uniform(1, 20))
+                    v[f"g{o_}"] = float(rng.uniform(0.1, 3)) * (-1 if s_ == "neg" else 1)
                 for g in range(ng_):
                     v.update({f"mu{g}": float(rng.uniform(-0.2, 0.4)), f"sig{g}": float(rng.uniform(0.05, 0.3)), f"sc{g}": float(rng.uniform(0.5, 2))})
                 mc, dm = build_osc_irf_full(cfg, lambda nm: v[nm])
                 t = np.array([float(rng.uniform(-1.5, 0.2)), float(rng.uniform(0.3, 1.5))])
                 gaxis = np.array([1.0, 2.0]) if cfg["shifted"] else np.array([1.0])
                 labels, m = mc.calculate_matrix(dm, gaxis, t)
-                kk = v["g0"] + 1j * v["f0"] * 0.03 * 2 * np.pi
-                for gi in range(len(gaxis)):
-                    for a in range(2):
-                        tot = 0j
-                        for g in range(ng_):
-                            sig = v[f"sig{g}"]
-                            tau = t[a] - (v[f"mu{g}"] - (v[f"sh{gi}"] if cfg["shifted"] else 0.0))
-                            if (tau < 5 * sig) if cfg["neg"] else (tau > -5 * sig):
-                                term = np.exp((-tau + 0.5 * kk * sig * sig) * kk) * (1 + cerf((tau - kk * sig * sig) / ((-1 if cfg["neg"] else 1) * np.sqrt(2) * sig)))
-                                tot += (v[f"sc{g}"] if ng_ > 1 else 1.0) * term
-                        tot /= sum(v[f"sc{g}"] for g in range(ng_)) if ng_ > 1 else 1.0
-                        row = m[gi, a] if m.ndim == 3 else m[a]
-                        if not np.allclose([row[0], row[1]], [tot.real, tot.imag], rtol=1e-7, atol=1e-10):
-                            return True, (f"{cfg['name']} parameters {v}: columns at t={t[a]}, index {gi} are {row.tolist()}, closed form "
-                                          f"{[tot.real, tot.imag]}")
+                for o_, s_ in enumerate(sg_):
+                    neg_ = s_ == "neg"
+                    kk = v[f"g{o_}"] + 1j * v[f"f{o_}"] * 0.03 * 2 * np.pi
+                    for gi in range(len(gaxis)):
+                        for a in range(2):
+                            tot = 0j
+                            for g in range(ng_):
+                                sig = v[f"sig{g}"]
+                                tau = t[a] - (v[f"mu{g}"] - (v[f"sh{gi}"] if cfg["shifted"] else 0.0))
+                                if (tau < 5 * sig) if neg_ else (tau > -5 * sig):
+                                    term = np.exp((-tau + 0.5 * kk * sig * sig) * kk) * (1 + cerf((tau - kk * sig * sig) / ((-1 if neg_ else 1) * np.sqrt(2) * sig)))
+                                    tot += (v[f"sc{g}"] if ng_ > 1 else 1.0) * term
+                            tot /= sum(v[f"sc{g}"] for g in range(ng_)) if ng_ > 1 else 1.0
+                            row = m[gi, a] if m.ndim == 3 else m[a]
+                            got_ = [row[list(labels).index(f"o{o_}_cos")], row[list(labels).index(f"o{o_}_sin")]]
+                            if not np.allclose(got_, [tot.real, tot.imag], rtol=1e-7, atol=1e-10):
+                                return True, (f"{cfg['name']} parameters {v}: columns of oscillation o{o_} at t={t[a]}, index {gi} are {got_}, "
+                                              f"closed form {[tot.real, tot.imag]}")
             elif cfg["kind"] == "artifact":
                 ng = cfg.get("ng", 1)
                 v = {"mu": float(rng.uniform(-0.3, 0.3)), "sig": float(rng.uniform(0.1, 0.5)), "w": float(rng.uniform(0.1, 0.5))}
@@ -717,7 +743,12 @@ def replay(data):
                 shape = SpectralShapeGaussian(label="s", amplitude=_param("A", v["A"]), location=_param("x0", v["x0"]), width=_param("D", v["D"]))
                 mc = SpectralMegacomplex(label="sp", shape={"s1": shape})
                 dm = types.SimpleNamespace(label="d1", spectral_axis_inverted=cfg["axis"] == "inverted", spectral_axis_scale=sc if cfg["axis"] != "plain" else 1)
-                _, m = mc.calculate_matrix(dm, np.array([0.0]), x)
+                x_in = x.copy()
+                _, m = mc.calculate_matrix(dm, np.array([0.0]), x_in)
+                _, m2 = mc.calculate_matrix(dm, np.array([0.0]), x_in)
+                if not np.array_equal(x_in, x) or not np.array_equal(m, m2):
+                    return True, (f"spectral axis {cfg['axis']} scale {sc}: evaluating the matrix changed the caller's axis array from {x.tolist()} to "
+                                  f"{x_in.tolist()} (a second evaluation gives {'the same' if np.array_equal(m, m2) else 'a different'} matrix)")
                 xe = sc / x if cfg["axis"] == "inverted" else sc * x if cfg["axis"] == "scaled" else x
                 want = v["A"] * np.exp(-np.log(2) * (2 * (xe - v["x0"]) / v["D"]) ** 2)
                 if not np.allclose(m[:, 0], want, atol=1e-12):
